@@ -42,6 +42,33 @@ func tick() {
 
 var wallTimeouts int
 
+// listTooLarge: the eager evaluation of the list expression of a list case exceeds an eighth of the tick budget
+func listTooLarge(op *Sx) bool {
+	saved := budget
+	budget = saved / 8
+	defer func() { budget = saved }()
+	res := guarded(func() (out string) {
+		defer func() {
+			if p := recover(); p != nil {
+				if _, ok := p.(errBudget); ok {
+					panic(p)
+				}
+				out = "" // a user callback panicked: small enough to get there
+			}
+		}()
+		evalEagerL(op.List[1], 0)
+		// the lazy evaluation too: nested FlatMaps whose function returns empty lists make list.FlatMap rebuild the rest of the
+		// list in its head thunk AND in its tail thunk (exponential in the nesting depth; slow, not non-terminating)
+		if n := len(buildList(op.List[1], 0).ToSeq()); n > 300 {
+			// folds with `pair` over hundreds of elements build values whose RENDERING takes the wall-clock watchdog's 20 s on a
+			// loaded machine (answer `timeout` against the model's value)
+			return "timeout"
+		}
+		return ""
+	})
+	return res == "timeout"
+}
+
 // guarded runs one case in its own goroutine with a deadline.
 func guarded(f func() string) string {
 	ticks = 0
@@ -101,9 +128,9 @@ func tok(name string, f func() string) string {
 
 // ------------------------------------------------------------------------------------ callbacks
 
-func f1(s *Sx) func(any) any          { f := F1Of(s); return func(x any) any { tick(); return f(x) } }
-func p1(s *Sx) func(any) bool         { f := P1Of(s); return func(x any) bool { tick(); return f(x) } }
-func f2(s *Sx) func(any, any) any     { f := F2Of(s); return func(x, y any) any { tick(); return f(x, y) } }
+func f1(s *Sx) func(any) any      { f := F1Of(s); return func(x any) any { tick(); return f(x) } }
+func p1(s *Sx) func(any) bool     { f := P1Of(s); return func(x any) bool { tick(); return f(x) } }
+func f2(s *Sx) func(any, any) any { f := F2Of(s); return func(x, y any) any { tick(); return f(x, y) } }
 func ints(xs []*Sx) []any {
 	out := make([]any, len(xs))
 	for i, x := range xs {
@@ -797,6 +824,15 @@ func main() {
 		var op *Sx
 		if i%4 == 3 && prop != "C20" {
 			op = genListCase(r)
+			// a list program whose EAGER reference computation alone needs a good part of the per-case tick budget (nested FlatMaps
+			// multiply lengths) is not a test of termination but of the watchdog: at thorough sizes such programs were reported as
+			// "does not terminate on a finite list" and as model / implementation mismatches (answer `timeout`) on the unchanged tree
+			// (false alarm 16, session 6).  Draw another one.
+			for tries := 0; tries < 8 && listTooLarge(op); tries++ {
+				hist["list-too-large-redrawn"]++
+				ResetIDs()
+				op = genListCase(r)
+			}
 		} else {
 			op = genCase(r)
 		}
